@@ -1,6 +1,7 @@
 package props
 
 import (
+	"errors"
 	"fmt"
 	"sync"
 	"sync/atomic"
@@ -306,7 +307,7 @@ func runC09Concurrent(ctx *core.Ctx, out *core.Out) {
 	}
 	for _, p := range posts {
 		out.Count("calls_after_close_checked", 1)
-		if p.err != ws.ErrCloseSent {
+		if !errors.Is(p.err, ws.ErrCloseSent) {
 			fail("call-after-close:"+p.name, fmt.Sprintf("%s called after all activity had ended returned %v instead of ErrCloseSent", p.name, p.err), nil)
 			return
 		}
